@@ -63,7 +63,9 @@ def shutdownDeadlineMs : Nat := 2000
 `replyLost`: (net/rpc) the plugin exited before its reply to `Control.Quit` was written. -/
 def close (P : Params) (proto : Proto) (beh : Beh) (replyLost : Bool) : CloseRes × Nat :=
   match proto, beh with
-  | .netrpc, .frozen => (.err, libDeadPeerMs)
+  -- the dead-peer detection closes the session: the pending `Control.Quit` call ends with an unexpected EOF,
+  -- which counts as a successful close exactly like a reply lost to the plugin's exit
+  | .netrpc, .frozen => (if P.quitEofIsGraceful then .ok else .err, libDeadPeerMs)
   | .netrpc, .deadAlready => (if P.quitEofIsGraceful then .ok else .err, 0)
   | .netrpc, .ignores => (.ok, 0)
   | .netrpc, _ => (if replyLost then (if P.quitEofIsGraceful then .ok else .err) else .ok, 0)
